@@ -634,3 +634,11 @@ Proof.
   - apply NS_declare; [exact H7|right; exact Hlk].
   - eapply cur_ok_mono; [exact Hle|]. eapply cur_ok_eq; [|exact H10]. reflexivity.
 Qed.
+
+(* the captured context is used in one clause only *)
+Lemma Cl_cd : forall path prog (P : str -> Prop) cb CD CD' base fnm SF b B env s g,
+  Cl path prog P cb CD base fnm SF b B env s g ->
+  (forall x k, assoc x CD' = Some k ->
+     uname0 x /\ exists c c', lookup_scopes x (captured env) = Some c /\ cbget cb x = Some c' /\ b c c' k) ->
+  Cl path prog P cb CD' base fnm SF b B env s g.
+Proof. intros path prog P cb CD CD' base fnm SF b B env s g [H1 H2 H3 H4 H5 H6 H7 H8 H9 H10] H. constructor; assumption. Qed.
